@@ -538,6 +538,50 @@ def check_tables(ctx, card_recs):
 
 
 # ---------------------------------------------------------------------------------------------
+def run_relaxed_parameters(ctx, cases):
+    """The discrete (rational) face of the relaxed distributions: the probability that a relaxed sample
+    thresholds to b -- `tlog_prob`, and the `probs` / `logits` views whichever way the distribution was
+    constructed -- must be the spec's proposal probability k/D.  (The continuous clauses stay undecided.)"""
+    from pydrobert.torch.distributions import GumbelOneHotCategorical, LogisticBernoulli
+
+    seen = set()
+    for cs in cases:
+        key = (cs["dist"], tuple(cs["k"]), cs["D"])
+        if key in seen:
+            continue
+        seen.add(key)
+        D, kk = cs["D"], cs["k"]
+        case = dict(type="relaxed_parameters", dist=cs["dist"], k=list(kk), D=D)
+        try:
+            if cs["dist"] == "bern":
+                p = torch.tensor([k / D for k in kk], dtype=_est.DT)
+                lg = _est.logits_of(cs, kk)
+                for how, dist in (("logits", LogisticBernoulli(logits=lg)), ("probs", LogisticBernoulli(probs=p))):
+                    views = dict(probs=dist.probs, logits_sigmoid=torch.sigmoid(dist.logits),
+                                 tlog_prob_one=dist.tlog_prob(torch.ones_like(p)).exp(),
+                                 tlog_prob_zero=1 - dist.tlog_prob(torch.zeros_like(p)).exp())
+                    for name, got in views.items():
+                        if got.shape != p.shape or not bool(((got - p).abs() <= 1e-9).all()):
+                            _viol(ctx, dict(site="LogisticBernoulli", kind="threshold_probability", view=name, built_from=how),
+                                  "LogisticBernoulli(%s=...).%s gives %r, the parameter is %r" % (how, name, got.tolist(), p.tolist()), case)
+            else:
+                w = torch.tensor([float(k) for k in kk], dtype=_est.DT)
+                p = w / w.sum()
+                for how, dist in (("logits", GumbelOneHotCategorical(logits=w.log() + 0.75)), ("probs", GumbelOneHotCategorical(probs=w))):
+                    eye = torch.eye(len(kk), dtype=_est.DT)
+                    views = dict(probs=dist.probs, logits_softmax=dist.logits.softmax(-1), tlog_prob=dist.tlog_prob(eye).exp())
+                    for name, got in views.items():
+                        if got.shape != p.shape or not bool(((got - p).abs() <= 1e-9).all()):
+                            _viol(ctx, dict(site="GumbelOneHotCategorical", kind="threshold_probability", view=name, built_from=how),
+                                  "GumbelOneHotCategorical(%s=...).%s gives %r, the parameter is %r" % (how, name, got.tolist(), p.tolist()), case)
+        except (NameError, AttributeError, TypeError):
+            raise  # a bug in this driver, not a finding
+        except Exception as ex:
+            _viol(ctx, dict(site="relaxed distributions", kind="exception", exc=type(ex).__name__), "raised %r" % ex, case)
+        ctx.case(key=("relaxed_parameters",) + key, nontrivial=len(set(kk)) > 1, n=1)
+    ctx.count("relaxed_parameter_cases", len(seen))
+
+
 def selftest(ctx, cases):
     """binding self-test: a corrupted spec weight / a wrong estimator must be flagged"""
     k = next(k for k in sorted(cases) if cases[k]["cs"]["est"] == "direct" and cases[k]["cs"]["n"] == 2
@@ -593,6 +637,7 @@ def run(ctx):
         raise MachineryError("Estimators export is empty")
     selftest(ctx, cases)
     run_estimators(ctx, cases)
+    run_relaxed_parameters(ctx, [d["cs"] for d in cases.values()])
     run_mh(ctx, mh)
     supports = check_tables(ctx, card_res.records)
     traces = collect_traces(ctx, supports)
@@ -607,6 +652,9 @@ def run(ctx):
 
 
 def replay(ctx, case):
+    if case.get("type") == "relaxed_parameters":
+        run_relaxed_parameters(ctx, [dict(dist=case["dist"], k=case["k"], D=case["D"])])
+        return
     t = case["type"]
     if t == "estimator":
         v = case["variant"]
